@@ -14,20 +14,20 @@ CHECKS = {
          "Trusted: harness reading of the table via get_leases; clock-edge steps (row within 1 s of now) are skipped and counted.", "3/C09"),
  "C10": ("HIST", "property testing over generated histories: bounds + reply/record relation", "exploration",
          "Every successful reply in every generated history carries option 51 within [300,86400] and the stored row runs exactly that long and does not expire early.",
-         "Bounds are the tree's defaults (the config keys that would change them are parsed but unused).", "3/C10"),
+         "Bounds are the tree's defaults (the config keys that would change them are parsed but unused). The same command also captures OFFER/ACK frames from the real erbium-dhcp over a veth pair and compares option 51 with the database row (wire tier; needs namespaces).", "3/C10"),
  "C13": ("HIST", "property testing: frame condition (table before == after unless replied) over generated messages of every type", "exploration",
          "For every generated message of any type / server-id kind on generated lease states: no reply => table unchanged; reply => only for DISCOVER/REQUEST meant for us, only the yiaddr row touched, header echoed, server-id ours.",
          "Malformed server-id lengths and server-id inside DISCOVER are unconstrained (statement silent).", "3/C13"),
  "C18": ("HIST", "differential property testing (interrupted vs uninterrupted twin) + generated old-schema databases", "fault_enumeration",
          "Reopen at generated split points of generated histories is indistinguishable from an uninterrupted twin; generated v0/v1 databases keep all rows, newer versions are refused unmodified.",
-         "Fault points are sampled (generated), not exhaustive. Torn writes inside one SQLite commit are not simulated.", "3/C18"),
+         "Fault points are sampled (generated), not exhaustive: reopen points in-process, SIGKILL instants (quick 12, thorough 300) against the real erbium-dhcp on the wire tier of the same command. Torn writes inside one SQLite commit are not simulated (relies on SQLite's atomic commit).", "3/C18"),
  "C20": ("HIST", "property testing: gauges vs harness count after every step of generated histories", "exploration",
          "After every step of every generated history (and on the empty store) the active/expired gauges equal the harness's own count of rows by expiry.",
-         "Rows within 1 s of now are skipped (boundary ambiguous at one-second granularity).", "3/C20"),
+         "Rows within 1 s of now are skipped (boundary ambiguous at one-second granularity). The HTTP listing and the /metrics gauges are private to the full binary and are decided by the wire tier of the same command (strict JSON parse, bijection with the rows read from the same SQLite file, hostile client-id/host-name bytes).", "3/C20"),
 
  "C12": ("CODEC", "round-trip + differential against independent RFC 2131/3396 and Ethernet/IPv4/UDP decoders over generated messages and frames; exhaustive sweep of the 65536 flag values", "exploration",
          "Generated DHCP messages survive parse/serialise/parse and read identically through an independent RFC decoder; generated frames verify (lengths, both checksums, payload); broadcast(f) <=> bit 15 for all 65536 flag values (exhaustive sub-claim).",
-         "Trusted: the harness's RFC 2131/3396 codec and frame decoder (written from the RFCs). On-the-wire destination choice is decided by the wire tier when enabled.", "3/C12"),
+         "Trusted: the harness's RFC 2131/3396 codec and frame decoder (written from the RFCs). The on-the-wire destination choice (broadcast iff bit 15, else yiaddr; Ethernet destination = chaddr) is decided by the wire tier of the same command on frames captured from the real erbium-dhcp (sampled flag values).", "3/C12"),
  "C14": ("CODEC", "round-trip property testing over generated structured DNS messages and mutated encodings, differential against an independent RFC 1035/6891 decoder with pointer audit", "exploration",
          "Every generated message (to 2000 records / 65535 octets, shared suffixes at every depth, all rdata kinds, EDNS options) re-decodes to itself with the crate parser and field-by-field (RFC bit positions) with an independent decoder; every compression pointer targets an earlier offset below 0x4000; accepted byte inputs re-encode to an equal message.",
          "Trusted: the harness's RFC 1035 decoder/encoder. Inputs whose RDLENGTH disagrees with name-bearing rdata are skipped (counted).", "3/C14"),
@@ -45,7 +45,7 @@ CHECKS = {
          "The bucket is decided exactly; the two-bucket limiter, reply pricing and cookie exemption are private glue decided by the wire tier of the same command (quiet source, bursts, cookie matrix) without numeric B and R. Key rotation is not covered.", "3/C16"),
  "C17": ("CONF+CODEC", "model-based property testing: generated interface configurations through the real loader and builder, decoded by an RFC 4861/8106/8781/8910 decoder and compared with expected(config)", "exploration",
          "Every generated interface section (tri-state fields, boundary lifetimes in four spellings, prefixes of any length with host bits, RDNSS/DNSSL/PREF64/captive portal, top-level defaults) yields an RA that an independent RFC decoder reads back as exactly the configured values; reserved fields zero; unrepresentable values rejected or clamped, never wrapped.",
-         "Trusted: the harness's RFC decoder and expectation model; yaml-rust's emitter (cases whose emitted text does not re-parse to the intended tree are skipped and counted). mtu/lifetime tri-state resolution is decided on the wire tier only.", "3/C17"),
+         "Trusted: the harness's RFC decoder and expectation model; yaml-rust's emitter (cases whose emitted text does not re-parse to the intended tree are skipped and counted). The mtu/lifetime tri-state resolution lives in the impure wrapper and is decided by the wire tier of the same command: nine combinations through the real erbium (router solicitation injected, advertisement captured, hop limit 255 and ICMPv6 checksum verified).", "3/C17"),
  "C19": ("CONF", "complete enumeration of the single-substitution family over the reference documents + generated double substitutions and byte/token mutations through the real loader; serve-smoke of every accepted configuration; crash oracle", "exploration",
          "The manual's examples and the shipped example load; no document of the enumerated family or of the generated mutations makes the loader panic or return an empty error; no accepted configuration makes DHCP handling, RA building or ACL decisions panic.",
          "Documents asking for explicit pools above 2^17 addresses, nesting deeper than 64 or using YAML aliases are not executed (counted): resource exhaustion by eager enumeration is not judged. DNS serving with accepted route tables is decided on the wire tier.", "3/C19"),
@@ -54,7 +54,7 @@ CHECKS = {
          "Trusted: the harness's model of erbium.conf(5). Unconstrained where the manual is silent (explicit pools naming the server's own or network/broadcast addresses; sibling overlap). Prefix lengths 22..30 in the generator; /8../21 only by the eager-size argument (the expansion code is length-independent).", "3/C02"),
  "C08": ("CONF", "model-based property testing: generated ACL lists through the real loader; reference first-match model vs require_permission (differential incl. refusal kind)", "exploration",
          "For every generated ACL list (or the documented defaults) and client (IPv4, IPv6, mapped, unix; at and around every prefix boundary) the decision for each of the four operations equals the first-match model, including the kind of refusal.",
-         "Function tier decides acl::require_permission and prefix containment. The wire tier of the same command decides the DNS entry point on the real erbium-dns (refused => REFUSED, never forwarded, never served from cache). HTTP endpoints need the full erbium binary (WIRE-NET).", "3/C08"),
+         "Function tier decides acl::require_permission and prefix containment. The wire tier of the same command decides the DNS entry point on the real erbium-dns (refused => REFUSED, never forwarded, never served from cache). The HTTP endpoints are decided by a second wire tier on the full erbium binary over a veth pair (TCP/IPv4 seen as mapped, TCP/IPv6, unix socket with bound and unbound clients; 200 vs 403 per endpoint).", "3/C08"),
  "C11": ("CONF", "model-based property testing: generated policy trees and requests through the real loader and handle_pkt; independent model of the manual's option semantics", "exploration",
          "For every generated policy tree, top-level defaults and request, the reply's options equal the model (sibling order, condition-less policies, outer-then-inner override, null unsets, parameter-list gating, defaults with $self4, MTU/router, netmask/broadcast) as a map code -> bytes.",
          "Trusted: the harness's model of erbium.conf(5) and RFC 2132 encodings for the 20 options generated. Unconstrained: netmask/broadcast with two different matching subnets; empty lists; relayed requests and match-interface are not generated.", "3/C11"),
@@ -107,6 +107,7 @@ def main():
             {"name": "CODEC", "path": "harness/src/props_codec.rs", "serves_properties": ["C04", "C05", "C06", "C12", "C14", "C16"], "kind_free_text": "independent RFC codecs + proptest strategies for messages, frames, byte mutations; enumerated mutation families"},
             {"name": "CONF", "path": "harness/src/conf.rs", "serves_properties": ["C02", "C08", "C11", "C17", "C19"], "kind_free_text": "YAML documents (reference docs, substitution family, generated ASTs) through the real loader; serve-smoke"},
             {"name": "WIRE-DNS", "path": "harness/src/wire_dns.rs", "serves_properties": ["C03", "C04", "C05", "C06", "C07", "C08", "C15", "C16"], "kind_free_text": "real erbium-dns binary in a private network namespace, scripted upstream servers on 127.0.1.N:53, UDP/TCP clients; cases generated by proptest, confirmed twice, shrunk with <= 40 re-executions"},
+            {"name": "WIRE-NET", "path": "harness/src/wire_net.rs", "serves_properties": ["C05", "C08", "C10", "C12", "C17", "C18", "C20"], "kind_free_text": "real erbium / erbium-dhcp binaries in a second network namespace behind a veth pair, private tmpfs on /var/lib/erbium, raw Ethernet frames (AF_PACKET) for DHCP and router solicitations, TCP/unix HTTP clients, direct SQLite access to the lease file"},
             {"name": "HIST", "path": "harness/src/hist.rs", "serves_properties": ["C01", "C09", "C10", "C13", "C18", "C20"], "kind_free_text": "model-based DHCP history interpreter over the real handle_pkt + Pool (proptest)"},
         ],
         "checks": checks,
